@@ -1,5 +1,6 @@
 from itertools import combinations
 
+import networkx as nx
 import numpy as np
 
 try:
@@ -310,6 +311,9 @@ class UAIReader(object):
 
         elif self.network_type == "MARKOV":
             model = MarkovNetwork(self.edges)
+            # variables that only occur in unary factors have no edge
+            # (plain networkx call: UndirectedGraph.add_nodes_from would attach weight attributes)
+            nx.Graph.add_nodes_from(model, self.variables)
 
             factors = []
             for table in self.tables:
